@@ -84,8 +84,11 @@ class Prop:
                 ops.append({"k": "gc"})
             elif x < 0.06:
                 ops.append({"k": "drop", "o": r.randrange(npool + 2)})
-            elif allow_opt and x < 0.12:
+            elif allow_opt and x < 0.20:
                 ops.append(r.choice([{"k": "add_trait", "o": r.randrange(npool)},
+                                     {"k": "add_trait", "o": r.randrange(npool),
+                                      "dflt": G.gen_ref(r, npool, 0.3, 0.0)},
+                                     {"k": "read_extra", "o": r.randrange(npool)},
                                      # (a trait whose constant default is a node)
                                      {"k": "add_trait", "o": r.randrange(npool),
                                       "dflt": G.gen_ref(r, npool, 0.3, 0.0)},
